@@ -277,8 +277,10 @@ Print Assumptions C17_restart_counter_load.
    C17_coherent_fresh_process); kill the process after k stdio calls of the history; start a fresh
    process on the files that are left.  Then, with evs1 = the events completed before the kill,
    j = the number of updater calls of the interrupted event that were completed, and
-   mj = ps_mem_last ... = the memory state after the last completed updater (for a DELETE: without
-   the resource from its first call-out on, as coap_delete_resource_lkd unhooks it first):
+   mj = ps_mem_last ... = the memory state after the last completed updater (for a DELETE: the
+   resource stays in mj, with the observers whose records are still in the file, until its
+   dynamic-resource record is removed, and its sent values stay in Gj until the counter line is
+   removed, which is the last call-out - C17_restart_restores_interrupted_delete below):
      - the files at the kill are the files coherent with the memory state after evs1, advanced by
        exactly those j calls (whole records only);
      - every observable resource of mj exists in the fresh process;
@@ -310,7 +312,7 @@ Theorem C17_restart_restores : forall pol app req alloc cfg m0,
                                  end)) (snd (ps_hist_state alloc cfg evs1 m A))) /\
       fst (ps_run pol (ps_startup app req alloc cfg m0)
                   (ps_boot (ps_fs (ps_runk pol (ps_hist alloc cfg evs m sent) k s)))) = Some mR /\
-      let mj := ps_mem_last alloc rest (fst (ps_hist_state alloc cfg evs1 m A)) j in
+      let mj := ps_mem_last alloc cfg rest (fst (ps_hist_state alloc cfg evs1 m A)) j in
       let Gj := ps_ghost_last alloc cfg rest (fst (ps_hist_state alloc cfg evs1 m A))
                               (ps_ghosts alloc evs1 m G) j in
       (forall n r, ps_find n mj = Some r -> psr_observable r = true -> ps_has mR n) /\
@@ -318,6 +320,20 @@ Theorem C17_restart_restores : forall pol app req alloc cfg m0,
       (forall n tu tok v rR, In (n, tu, tok, v) Gj -> ps_find n mR = Some rR -> v < psr_observe rR + 1).
 Proof. intros. eapply ps_history_restart; eassumption. Qed.
 Print Assumptions C17_restart_restores.
+
+(* the claim C17_restart_restores makes for the resource of an interrupted DELETE (defect F17d:
+   the counter line used to go first, and a kill before the other records were gone brought the
+   resource back with its observers and an Observe value that had been used before) *)
+Theorem C17_restart_restores_interrupted_delete : forall alloc cfg name rest m G r j,
+  ps_find name m = Some r ->
+  let p := if ps_del_bump r && (ps_del_value r mod psc_freq cfg =? 0) then 1%nat else 0%nat in
+  (j < length (ps_ev_calls alloc cfg (PsEvDel name) m))%nat ->
+  ps_ghost_last alloc cfg (PsEvDel name :: rest) m G j = G /\
+  ((1 <= j <= p + length (psr_subs r))%nat ->
+   ps_mem_last alloc cfg (PsEvDel name :: rest) m j =
+   ps_replace (mkRsrc name (psr_observable r) (ps_del_value r) (skipn (j - p) (psr_subs r))) m).
+Proof. intros alloc cfg name rest m G r j Hf p Hj. exact (ps_delete_window alloc cfg name rest m G r j Hf Hj). Qed.
+Print Assumptions C17_restart_restores_interrupted_delete.
 
 (* the invariant that links memory, files and sent values holds after every event of every
    history ... *)
